@@ -112,6 +112,19 @@ rewrite dh in sE.
 by apply: (@UpdStep st m sk s rs g' true gen r' radd rgen) => //; split; split.
 Qed.
 
+(* verification is a function of (key, message, signature): whatever has been verified before - any
+   state [st] of the round, any history - the sender's share over another message x, relabelled with
+   the hash the round expects, is rejected and leaves the round as it was *)
+Lemma stale_share_rejected st m sk x :
+  look (m_sender m) (e_members e) = Some sk -> m_sig m = PVal (sk * H x) -> H x != H (m_dh m) ->
+  (upd true e st m).1 = st.
+Proof.
+move=> lk sg ne; rewrite /r1_update; case: (e_existed e) => //; rewrite lk.
+case: (true && _) => //; rewrite sg /=.
+case sk0: (sk == 0); first by rewrite /= andbF orbT.
+by rewrite (inj_eq (mulfI (negbT sk0))) (negbTE ne) !andbF orbT.
+Qed.
+
 (* ---- invariant 1: what is in the recovery sets (no assumption on the messages) ---- *)
 Definition valid_map (h : F) (m : seq (F * F)) : Prop :=
   forall id s, (id, s) \in m -> exists2 sk, look id (e_members e) = Some sk & s = sk * h /\ s != 0.
